@@ -267,3 +267,5 @@ def run(ctx):
     C14.r7_no_loss(ctx, 'C05.R7', C14.REFUSAL_SLOT, floor=2)
     from .. import boundaries as _b
     _b.check_predicates(ctx, 'C05.RP', 'C05')
+    from .. import boundaries as _b
+    _b.check_updates(ctx, 'C05.RU', 'C05')
